@@ -90,8 +90,11 @@ def gen_case(case_seed, cfg):
     grid = [i * step for i in range(npts)]
     vnum = r.choice([1.7, 0.3, 4.0, 1.0])
     vobj = r.choice(["const", "const", "dividing"])
+    # the lattice point of this case is called first; then up to two more calls (other lattice points) on the SAME model
+    # object / interfaces: a result must be complete and start from the initial condition whatever was simulated before
+    extra = [r.randrange(128) for _ in range(r.choice([0, 1, 2, 2]))]
     return {"model": model, "grid": grid, "stratum": stratum, "bseed": seeds.bioscrape_seed(case_seed, "run"),
-            "vnum": vnum, "vobj": vobj, "lattice": None}
+            "vnum": vnum, "vobj": vobj, "lattice": None, "extra_calls": extra}
 
 
 def _first_row_expected(model, stochastic_mode):
@@ -102,17 +105,38 @@ def _first_row_expected(model, stochastic_mode):
 
 
 def run_case(case):
+    import bioscrape.random as R_
+    lp0 = case["lattice"] if case.get("lattice") else lattice_point(case["_index"])
+    M = rm.to_bioscrape(case["model"])
+    R_.py_seed_random(case["bseed"])
+    points = [lp0] + [lattice_point(i) for i in case.get("extra_calls", [])]
+    shared = {"M": M, "ifaces": {}}
+    total = {"violations": [], "stats": {}, "sigs": [], "nontrivial": False, "digest": hashlib.sha256()}
+    for pos, lp in enumerate(points):
+        out = _one_call(case, lp, shared, pos)
+        for k, v in out["stats"].items():
+            total["stats"][k] = total["stats"].get(k, 0) + v
+        total["violations"] += out["violations"]
+        total["sigs"].append(out["sig"])
+        total["nontrivial"] = total["nontrivial"] or out["nontrivial"]
+        total["digest"].update(out["digest"].encode())
+        if out["violations"]:
+            break
+    if len(points) > 1:
+        total["stats"]["multi_call_cases"] = 1
+    return {"violations": total["violations"], "stats": total["stats"], "sig": repr(total["sigs"]),
+            "nontrivial": total["nontrivial"], "digest": total["digest"].hexdigest(), "sim_time": case["grid"][-1] * len(points)}
+
+
+def _one_call(case, lp, shared, pos):
     import warnings
     import pandas
-    import bioscrape.random as R_
     from bioscrape.simulator import py_simulate_model, ModelCSimInterface, SafeModelCSimInterface
     from bioscrape.types import Volume, StochasticTimeThresholdVolume
-    lp = case["lattice"] if case.get("lattice") else lattice_point(case["_index"])
     model = case["model"]
     grid = np.array(case["grid"], dtype=float)
-    M = rm.to_bioscrape(model)
+    M = shared["M"]
     species_order = M.get_species_list()
-    R_.py_seed_random(case["bseed"])
     kw = {"stochastic": lp["stochastic"], "safe": lp["safe"], "return_dataframe": lp["dataframe"]}
     kw["delay"] = True if lp["delay"] else None
     vol_in_play = lp["volume"] != "off"
@@ -136,11 +160,14 @@ def run_case(case):
     if lp["via"] == "model":
         kw["Model"] = M
     else:
-        kw["Interface"] = SafeModelCSimInterface(M) if lp["safe"] else ModelCSimInterface(M)
+        key = "safe" if lp["safe"] else "plain"
+        if key not in shared["ifaces"]:
+            shared["ifaces"][key] = SafeModelCSimInterface(M) if lp["safe"] else ModelCSimInterface(M)
+        kw["Interface"] = shared["ifaces"][key]     # a pre-built interface, reused by later calls of the same case
     stats = {"calls": 1}
     viols = []
     sig = {"stochastic": lp["stochastic"], "delay": lp["delay"], "safe": lp["safe"], "volume": lp["volume"],
-           "dataframe": lp["dataframe"], "via": lp["via"]}
+           "dataframe": lp["dataframe"], "via": lp["via"], "call": "first" if pos == 0 else "later"}
     if lp["volume"] == "object":
         sig["volume_object"] = case["vobj"]
 
@@ -270,6 +297,9 @@ def shrink(case):
         base["lattice"] = lattice_point(case["_index"])
     lp = base["lattice"]
     m = base["model"]
+    ex = base.get("extra_calls", [])
+    for i in range(len(ex)):
+        yield dict(base, extra_calls=ex[:i] + ex[i + 1:])
     for i in range(len(m["reactions"])):
         if len(m["reactions"]) > 1:
             yield dict(base, model=dict(m, reactions=m["reactions"][:i] + m["reactions"][i + 1:]))
